@@ -96,3 +96,68 @@ func Verif_C08_LoadCorrupt(n int) {
 	}
 	verifsym.Reach("end")
 }
+
+// Verif_C08_SumMany(k, kn, vn): a sum file with k entries - long concrete module
+// paths "example.com/mod/pkgNNN/sub" and hashes of 44+ characters, as real
+// h1: hashes are - except one entry (case split over its rank among the
+// concrete ones) whose key tail of kn bytes and hash tail of vn bytes are
+// arbitrary: Save / Bytes / Load round trip, lines sorted, as in SumRoundTrip.
+func Verif_C08_SumMany(k, kn, vn int) {
+	root := verifsym.FSRoot()
+	f := &File{Dir: root, Data: map[string]string{}}
+	num := func(i int) string {
+		return string([]byte{'0' + byte(i/100%10), '0' + byte(i/10%10), '0' + byte(i%10)})
+	}
+	var keys, vals []string
+	for i := 0; i < k-1; i++ {
+		keys = append(keys, "example.com/mod/pkg"+num(i*7)+"/sub")
+		vals = append(vals, "h1:"+num(i)+"AbCdEfGhIjKlMnOpQrStUvWxYz0123456789+/abcd=")
+	}
+	// the symbolic entry sorts somewhere among the others: its prefix is that of a
+	// concrete entry chosen by case split
+	at := 0
+	if k > 1 {
+		at = verifsym.IntRange(0, k-2)
+	}
+	key := "example.com/mod/pkg" + num(at*7) + vToken(kn)
+	for _, q := range keys {
+		verifsym.Assume(key != q)
+	}
+	keys = append(keys, key)
+	vals = append(vals, "h1:"+vToken(vn)+"AbCdEfGhIjKlMnOpQrStUvWxYz0123456789+/abcd=")
+	for i := range keys {
+		f.Data[keys[i]] = vals[i]
+	}
+	verifsym.Assert(f.Save() == nil, "Save fails")
+	data, ok := verifsym.FSGet(root + "/gengo.sum")
+	verifsym.Assert(ok, "Save did not create gengo.sum in Dir")
+	idx := make([]int, k)
+	for i := range idx {
+		idx[i] = i
+	}
+	for i := 0; i < k; i++ {
+		for j := i + 1; j < k; j++ {
+			if keys[idx[j]] < keys[idx[i]] {
+				idx[i], idx[j] = idx[j], idx[i]
+			}
+		}
+	}
+	want := ""
+	for _, i := range idx {
+		want += keys[i] + " " + vals[i] + "\n"
+	}
+	verifsym.Assert(data == want, "gengo.sum is not one sorted `path hash` line per entry")
+	g, lerr := Load(root)
+	verifsym.Assert(lerr == nil && g != nil, "Load fails on a file written by Save")
+	if g != nil {
+		n := 0
+		for range g.Data {
+			n++
+		}
+		verifsym.Assert(n == k, "Load yields a different number of entries")
+		for i, key := range keys {
+			verifsym.Assert(g.Sum(key) == vals[i], "Load yields a different hash for a package")
+		}
+	}
+	verifsym.Reach("end")
+}
